@@ -374,32 +374,57 @@ func (c *Check) enumeratedMaps(ctor, key *ssa.Function) {
 	p := c.P
 	ranged := func(f *ssa.Function) map[string]bool {
 		out := map[string]bool{}
-		forEachFuncAndAnon(f, func(g *ssa.Function) {
-			for _, b := range g.Blocks {
-				for _, ins := range b.Instrs {
-					var m ssa.Value
-					switch x := ins.(type) {
-					case *ssa.Range:
-						m = x.X
-					case *ssa.Call:
-						// helper that returns the sorted keys of a map
-						if callee := x.Call.StaticCallee(); callee != nil && strings.HasPrefix(callee.Name(), "sortedKeys") && len(x.Call.Args) == 1 {
-							m = x.Call.Args[0]
-						}
+		fns := withHelpers(f, 3)
+		inSet := map[*ssa.Function]bool{}
+		for _, g := range fns {
+			inSet[g] = true
+		}
+		// origin: the Sample field a map value is read from, following parameters back to
+		// the arguments of the calls made inside the function's own helpers
+		var origin func(m ssa.Value, depth int) []string
+		origin = func(m ssa.Value, depth int) []string {
+			if depth > 3 {
+				return nil
+			}
+			if ld, ok := m.(*ssa.UnOp); ok && ld.Op == token.MUL {
+				if fa, ok := ld.X.(*ssa.FieldAddr); ok {
+					if T, F := fieldOf(fa.X.Type(), fa.Field); T == "profile.Sample" {
+						return []string{F}
 					}
-					if m == nil {
-						continue
+				}
+			}
+			if par, ok := m.(*ssa.Parameter); ok {
+				idx := -1
+				for i, q := range par.Parent().Params {
+					if q == par {
+						idx = i
 					}
-					if ld, ok := m.(*ssa.UnOp); ok && ld.Op == token.MUL {
-						if fa, ok := ld.X.(*ssa.FieldAddr); ok {
-							if T, F := fieldOf(fa.X.Type(), fa.Field); T == "profile.Sample" {
-								out[F] = true
+				}
+				var fs []string
+				for _, g := range fns {
+					for _, b := range g.Blocks {
+						for _, ins := range b.Instrs {
+							if call, ok := ins.(ssa.CallInstruction); ok && call.Common().StaticCallee() == par.Parent() && idx >= 0 && idx < len(call.Common().Args) {
+								fs = append(fs, origin(call.Common().Args[idx], depth+1)...)
 							}
 						}
 					}
 				}
+				return fs
 			}
-		})
+			return nil
+		}
+		for _, g := range fns {
+			for _, b := range g.Blocks {
+				for _, ins := range b.Instrs {
+					if x, ok := ins.(*ssa.Range); ok {
+						for _, F := range origin(x.X, 0) {
+							out[F] = true
+						}
+					}
+				}
+			}
+		}
 		return out
 	}
 	want, got := ranged(ctor), ranged(key)
